@@ -83,9 +83,8 @@ Fixpoint msg_sizes_ok (S : schema) (tid : nat) (v : value) {struct v} : bool :=
        type does not accept as known (number not declared, or declared with a wire type the field
        rejects), with minimal tags on the table-driven path ([slow] = false) -- checked by
        running the wire scanner, see [msg_unknown_ok].
-   Restrictions of the proved theorem (named in Props/C03.v): [grp_unknown] -- a group-typed
-   value must have empty unknown bytes on the table-driven path; on the reflection path
-   ([slow] = true) group-typed fields are excluded. *)
+   Restriction of the proved theorem (named in Props/C03.v): [slow_groups] -- on the reflection
+   path ([slow] = true) group-typed fields are excluded. *)
 
 Definition msg_bytes_eqb (a b : list byte) : bool :=
   match msg_bytes_cmp a b with Eq => true | _ => false end.
@@ -181,7 +180,7 @@ Section FieldTyped.
     match f_kind fd, v with
     | KS sk, VS s => sk_ok sk s && msg_str_valid sk (msg_field_utf8 slow fd) s
     | KMsg tid, VMsg _ _ => tv tid v
-    | KGrp tid, VMsg _ unk => negb slow && tv tid v && match unk with [] => true | _ => false end
+    | KGrp tid, VMsg _ _ => negb slow && tv tid v
     | _, _ => false
     end.
 
